@@ -9,7 +9,7 @@ ENV = "export GOFLAGS=-mod=mod GOPROXY=off GOSUMDB=off GOTOOLCHAIN=local"
 CHECKS = {
  "C01": ("online reference-model monitor (lockstep abstract map) over order-family workloads on all 8 key-value containers",
          "Exploration: every Put/Remove/Clear/Get of each generated history runs on the real container and on an abstract map (identity- or comparator-class-keyed); Get of touched + probe keys, Size, Empty after every call, Keys/Values exactly-once and alignment on every call while n<=64; remove-absent compares snapshots. Holds on the executed histories only.",
-         "Trusts the abstract-map model (kvmodel.go) and Go's runtime; keys int (small alphabets and ints from the whole range: negatives, extremes, pairs more than MaxInt apart), string, struct (with Equal/Compare/Less/IsZero methods that disagree with == and the comparators) and (ordered containers) float64 incl. NaN; values int; comparators natural/reversed/coarsened/un-normalised, and the built-in order of the New constructors.",
+         "Trusts the abstract-map model (kvmodel.go) and Go's runtime; keys int (small alphabets and ints from the whole range: negatives, extremes, pairs more than MaxInt apart), string, struct (with Equal/Compare/Less/IsZero methods that disagree with == and the comparators) and (ordered containers) float64 incl. NaN, and non-nil pointer keys whose library-facing comparator refuses nil; histories of TreeMap/TreeBidiMap continue on Map/Select results; values int; comparators natural/reversed/coarsened/un-normalised, and the built-in order of the New constructors.",
          "DESIGN.md §4 C01"),
  "C02": ("online monitor: sortedness, iterator walk, extremes and exhaustive Floor/Ceiling probing against a sorted model",
          "Exploration: after every call of C01-style histories on the six comparator-ordered containers, enumeration order, all extreme accessors and Floor/Ceiling for present, absent, between-neighbour and out-of-range probes are compared with the sorted model. Holds on the executed histories and probes only.",
@@ -25,7 +25,7 @@ CHECKS = {
          "DESIGN.md §4 C04"),
  "C05": ("online reference-model monitor (LIFO/FIFO/bounded FIFO with unique items) incl. a sweep of every ring (capacity, offset, fill) state",
          "Exploration: every Push/Pop/Peek/Enqueue/Dequeue/Clear return value and Values/Size/Empty/Full after every call are compared with a slice model; the ring sweep visits every (capacity<=17, start offset, fill) state and samples larger capacities. Holds on the executed histories only.",
-         "Trusts the slice model; items are unique ints, strings, structs (one larger than a page) or repeating pointers.",
+         "Trusts the slice model; items are unique ints (one case in five: runs of equal ints), strings, structs (one larger than a page) or repeating pointers.",
          "DESIGN.md §4 C05"),
  "C06": ("online multiset monitor with minimality check on every Pop/Peek, permutation check of Values/iteration, final drain",
          "Exploration: BinaryHeap and PriorityQueue under interleaved single/bulk Push, Pop, Peek, Clear, FromJSON with five comparators incl. ties between distinguishable elements; every return value is checked for membership and minimality against a multiset. Holds on the executed histories only.",
